@@ -36,7 +36,7 @@ def correspond(ck, res, cf, hbin, tag, env=None):
 
 # level currently claimed per property (kept in step with tools/mkmanifest.py); "exploration" = the
 # property theorems are not finished yet: only the correspondence + judge decide
-LEVEL = {"C16": "exploration", "C17": "exploration", "C15": "exploration", "C14": "exploration", "C09": "translation_validation", "C04": "exploration", "C05": "exploration", "C12": "exploration", "C13": "exploration"}
+LEVEL = {"C16": "exploration", "C17": "exploration", "C15": "exploration", "C09": "translation_validation", "C04": "exploration", "C05": "exploration", "C12": "exploration"}
 def level_of(pid):
     return LEVEL.get(pid, "proof")
 
@@ -679,8 +679,11 @@ def judge_leaf(body, a):
 
 
 def check_C13(ck, res, replay):
-    common_front(ck, res, "C13", ties=["TieLeaf", "TieMoreModels"])
+    common_front(ck, res, "C13", ties=["TieLeaf", "TieMoreModels", "TieFlagDepth"])
     hbin = ck.build_harness(res)
+    # the memoised procedures are documented to work without ad-hoc path counting and with ad-hoc model counting:
+    # the same programs (with memoised queries) also run on those two builds
+    variants = build_variants(ck, res, [s_ for s_ in FEATURE_SETS if s_[0] in ("a0v1f1", "a2v0f0")])
     rng = gen.Rng(res.seed ^ 0xC13)
     cf = gen.CaseFile()
     leaf_id = None
@@ -728,9 +731,38 @@ def check_C13(ck, res, replay):
             mism += 1
             if mism <= 5:
                 res.broken.append(("correspondence", "case %s: implementation and model differ" % cid, json.dumps({"body": body, "impl": a, "model": b})[:2500]))
-    res.cov["evaluations"] = len(cf.meta)
+    # other feature sets: memoised model counts and paths must be exact there too
+    extra_eval = 0
+    if not replay:
+        for tag, cfg in (("a0v1f1", "a0v1"), ("a2v0f0", "a2v0")):
+            cf2 = gen.CaseFile()
+            rng2 = gen.Rng(res.seed ^ 0x13C ^ hash(tag) % 1000)
+            for i in range(300 if res.tier == "quick" else 8000):
+                nv = 2 + rng2.below(6)
+                kind, body = gen.gen_prog(rng2, nv, 8 + rng2.below(25), queries=False, cfg=cfg)
+                nreg = len(body)
+                for _ in range(8):
+                    a_ = rng2.below(nreg)
+                    body.append("q " + rng2.pick(["paths %d 1" % a_, "paths %d 0" % a_, "models %d 1" % a_, "models %d 0" % a_, "depth %d" % a_, "deps %d" % a_]))
+                cf2.add(kind, body, meta={"nvars": nv})
+            impl2, model2 = correspond(ck, res, cf2, variants.get(tag), "C13." + tag)
+            extra_eval += len(cf2.meta)
+            for cid, (kind, body, meta) in cf2.meta.items():
+                a, b = impl2.get(cid), model2.get(cid)
+                if a is None or any(l.startswith("PANIC") for l in a):
+                    res.violations.append({"key": "prog:panic:" + tag, "what": "implementation panicked (feature set %s)" % tag, "kind": kind, "body": body, "nvars": meta["nvars"], "observed": a})
+                    continue
+                for key, what in judge_queries(body, meta["nvars"], a):
+                    res.violations.append({"key": "query:%s:%s" % (key, tag), "what": what + " (feature set %s)" % tag, "kind": kind, "body": body, "nvars": meta["nvars"], "observed": a})
+                if a != b:
+                    mism += 1
+                    if mism <= 5:
+                        res.broken.append(("correspondence", "feature set %s case %s: implementation and model differ" % (tag, cid), json.dumps({"body": body, "impl": a, "model": b})[:2500]))
+    res.extra["other_feature_set_cases"] = extra_eval
+    res.cov["evaluations"] = len(cf.meta) + extra_eval
     res.cov["distinct_nontrivial"] = len(nontriv)
-    res.cov["rule"] = ("random programs (2..7 variables) with interleaved and trailing queries paths / models(naive) / depth / deps / cubes / impacts; "
+    res.cov["rule"] = ("(default build, and with memoised queries the builds a0v1f1 = no ad-hoc counting and a2v0f0 = ad-hoc models) "
+                       "random programs (2..7 variables) with interleaved and trailing queries paths / models(naive) / depth / deps / cubes / impacts; "
                        "a grid of arguments for the leaf predicates; non-trivial = at least 4 queries, distinct; answers judged from the implementation's own "
                        "table by path enumeration and truth tables, and compared with the extracted Coq model")
     res.cov["samples"] = [cf.meta[c][1] for c in list(cf.meta)[-2:]]
@@ -818,7 +850,7 @@ def judge_adf(text, a, queries, sort="none"):
     # the same query asked again later (after round trips or other calls) must give the same answer
     seen = {}
     for k, q in enumerate(queries):
-        if q[0] in ("roundtrip", "table", "acs", "validate", "audit", "ops"):
+        if q[0] in ("roundtrip", "table", "validate", "audit", "ops"):
             continue
         key = tuple(q)
         r = ans.get(k)
@@ -1266,7 +1298,7 @@ def c14_queries(rng, b):
     how = rng.pick(["json", "nodes"])
     life = rng.below(3)
     pre = [] if life == 0 else sem          # fresh, or after computations have grown the table
-    qs = pre + [["acs"], ["table"], ["roundtrip", how], ["acs"], ["table"]] + sem
+    qs = pre + [["acs"], ["depths"], ["table"], ["roundtrip", how], ["acs"], ["depths"], ["table"]] + sem
     if life == 2:
         qs += [["roundtrip", rng.pick(["json", "nodes"])], ["table"]] + sem
     return qs
